@@ -105,6 +105,16 @@ CLAIMED.update({
             "agreement with the fault model for resize / in-place updates / clear), then used and dropped.",
             TB + " std's unwinding behaviour, rayon's panic propagation and the 'assembled after the last caller call' classification of the consuming operations are observed, not proved.", "DESIGN §7 C02"),
 })
+CLAIMED.update({
+    'C03': ("Rocq proofs about the two pointer-level state machines of iter_mut.rs (both arms) under every interleaving + differential correspondence with pointer-event hooks",
+            "The machines IterVectorsMut / IterNthVectorMut are modelled statement for statement on pointer values (NonNull::add/sub = UB outside the allocation, new_unchecked(null) = UB, machine-integer "
+            "arithmetic) for every element size incl. zero and every alignment. Proved for every layout satisfying the two matrix layouts' arithmetic and EVERY finite program of next/next_back calls on the "
+            "outer iterator and all inner iterators kept alive: no UB and no panic, each position handed out at most once, exactly once when exhausted, at the address base + index*size of its element "
+            "(zero-sized: a counter in 1..=len, never null or wrapped), len() exact at every step. Proving the counters never overflow exposed finding F4 (fixed in /repo; old constructor refuted by witness). "
+            "Correspondence: nested scripts on all shapes <= 4x4, both orders/axes, four element types, exhaustive short scripts, pointer events range-checked via verif-hooks, "
+            "and zero-sized matrices with up to usize::MAX elements of alignment 1..8 run against the extracted pointer-level model.",
+            TB + " Provenance and aliasing are represented by addresses and allocation bounds only.", "DESIGN §7 C03"),
+})
 NOT_APPLICABLE = {}
-for _p in ['C03', 'C20']:
+for _p in ['C20']:
     NOT_APPLICABLE[_p] = "not claimed yet: the check for this property is still being built in this round (the technique applies; see DESIGN.md §7)"
